@@ -589,8 +589,10 @@ class dir_archive(archive):
             name = tempfile.mktemp(prefix="_____", dir="").replace("-","_")
             _arg = ".__args__" if input else ""
             string = "from %s%s import memo as %s; sys.modules.pop('%s')" % (base, _arg, name, base)
+            nocache = sys.dont_write_bytecode
             try:
                 sys.path.insert(0, root)
+                sys.dont_write_bytecode = True # cached bytecode can be stale
                 exec(string, globals()) #FIXME: unsafe, potential name conflict
                 memo = globals().get(name)# None) #XXX: error if not found?
                 globals().pop(name, None)
@@ -598,6 +600,7 @@ class dir_archive(archive):
                 raise KeyError(key)
                #raise OSError("error reading directory for '%s'" % key)
             finally:
+                sys.dont_write_bytecode = nocache
                 sys.path.remove(root)
         return memo
     def _store(self, key, value, input=False):
@@ -741,8 +744,10 @@ class file_archive(archive):
             name = tempfile.mktemp(prefix="_____", dir="").replace("-","_")
             os.chdir(root)
             string = "from %s import memo as %s; sys.modules.pop('%s')" % (file, name, file)
+            nocache = sys.dont_write_bytecode
             try:
                 sys.path.insert(0, root) # the current directory may not be on the path
+                sys.dont_write_bytecode = True # cached bytecode can be stale
                 exec(string, globals()) #FIXME: unsafe, potential name conflict
                 memo = globals().get(name, {}) #XXX: error if not found ?
                 globals().pop(name, None)
@@ -750,6 +755,7 @@ class file_archive(archive):
                 memo = {}
                #raise OSError("error reading file archive %s" % filename)
             finally:
+                sys.dont_write_bytecode = nocache
                 sys.path.remove(root)
                 os.chdir(curdir)
         return memo
